@@ -169,7 +169,7 @@ fn small(ctx: &mut Ctx) {
     }
 }
 
-fn gen_vector(rng: &mut Rng, width: usize, len: usize, alphabet: usize, skew: usize) -> Vec<u64> {
+pub fn gen_vector(rng: &mut Rng, width: usize, len: usize, alphabet: usize, skew: usize) -> Vec<u64> {
     let top: u64 = if width >= 64 { u64::MAX } else { (1u64 << width) - 1 };
     // Symbol set.
     let symbols: Vec<u64> = match alphabet {
